@@ -59,7 +59,9 @@ claim("C09", K8 + "Compositional on C08: pow_bounded_exp for concrete bit bounds
       "shaped moduli, and its final reduction as a cut point (arbitrary accumulator below 3m, real 64-bit words).", T_K8 + "; cut-point slice of the current source", "DESIGN.md section 4 C09 and 10.1")
 claim("C10", "PARTIAL. " + K8 + "Inversion modulo 2^k (three variants) for every a and every k at 1-2 limbs; the linear kernels of the safegcd "
       "core (UnsatInt conversion/add/neg/shr/eq, iteration count formula, the final normalisation norm() of the fixed and boxed inverters as a "
-      "cut point, boxed conversions) at 64-bit words. The Bernstein-Yang divsteps iteration itself and "
+      "cut point, boxed conversions; the sizing of the boxed work integers (documented headroom bits <= 62*nlimbs - 64 for every "
+      "precision up to 65536 limbs, same count as the fixed-size macro) and, as cut-point slices of the current source text, the loop bound "
+      "that divsteps (fixed and boxed) hands to the iteration, which must cover both operands) at 64-bit words. The Bernstein-Yang divsteps iteration itself and "
       "every end-to-end inversion/gcd through it are NOT decided (no bound within reach: >= 26 data-dependent 62-step jumps of 64x64 "
       "products); changes confined to that core are outside what this check can see.", T_K8 + "; " + T_K64, "DESIGN.md section 4 C10")
 claim("C11", "Every functional harness of the other properties runs with Kani's panic, overflow, bounds, debug_assert, unwrap/expect and "
